@@ -5,8 +5,8 @@
 EXTENDS Electre, Req, Json, TLC
 
 Trace == ndJsonDeserialize("obs.ndjson")
-VARIABLES l
-vars == <<l>>
+VARIABLES l, done
+vars == <<l, done>>
 Fail(p, why, key) == [p |-> p, why |-> why, key |-> key]
 
 Verdicts(o) ==
@@ -32,11 +32,14 @@ Verdicts(o) ==
                             /\ res[k].evaluation.descendingIndex <= res[CHOOSE j \in DOMAIN res : res[j].alternative.id = b].evaluation.descendingIndex}
                   THEN {} ELSE {Fail("C05", "links", "")})
 
-Init == l = 1
-Next == /\ l <= Len(Trace)
+(* independent lines are validated as independent states (see Trace_Decide) *)
+Init == l = 0 /\ done = FALSE
+Spread == l = 0 /\ l' \in 1..Len(Trace) /\ UNCHANGED done
+Eval == /\ l > 0 /\ ~done
         /\ LET V == Verdicts(Trace[l]) IN
              IF V = {} THEN TRUE ELSE PrintT(ToJson([VERDICT |-> l, case |-> Trace[l].case.id, v |-> V]))
-        /\ l' = l + 1
+        /\ done' = TRUE /\ UNCHANGED l
+Next == Spread \/ Eval
 Spec == Init /\ [][Next]_vars
-AllConsumed == TLCGet("stats").diameter = Len(Trace) + 1
+AllConsumed == TLCGet("distinct") = 2 * Len(Trace) + 1
 =============================================================================
